@@ -7,8 +7,13 @@ environment query, the initial file system (any tree), the option-argument strin
 and, for `rerun_*`, the length of the invocation history.  The scripts are the GENERATED terms
 `Gen.atlasR21`, `Gen.cmsR5`, `Gen.cmsR7`.
 -/
-import FaxVerif.C16.Proofs
-import FaxVerif.Generated.C16Scripts
+import FaxVerif.C16.Checks
+import FaxVerif.C16.CheckAtlasR21
+import FaxVerif.C16.CheckCmsR5
+import FaxVerif.C16.CheckCmsR7
+import FaxVerif.C16.LiveAtlasR21
+import FaxVerif.C16.LiveCmsR5
+import FaxVerif.C16.LiveCmsR7
 namespace FaxVerif.C16
 
 /-! ## Generic: a `Strict` script never exits 0 after a failed step -/
@@ -79,51 +84,547 @@ theorem spec_of_check (b : Backend) (script : List Sh) (i : Inv) (allOk live : B
   unfold obsOf run
   exact this
 
-/-! ## The command lines covered -/
 
-def insertAll {α : Type} (x : α) : List α → List (List α)
-  | [] => [[x]]
-  | y :: ys => (x :: y :: ys) :: (insertAll x ys).map (y :: ·)
+/-! ## Reading the Spec: the clauses of the property, as statements about a model run -/
 
-def perms {α : Type} : List α → List (List α)
-  | [] => [[]]
-  | x :: xs => (perms xs).flatMap (insertAll x)
+def viewOf (log : List (Cmd × Nat)) : View := (log.map (fun e => (e.1.argv, e.2))).map (fun e => (e.1, e.2 == 0))
 
-def sublists {α : Type} : List α → List (List α)
-  | [] => [[]]
-  | x :: xs => sublists xs ++ (sublists xs).map (x :: ·)
+def optTok : Nat → Val := fun k => [.optarg k]
 
-/-- getopts events for a sequence of option letters; `-d` / `-o` get the next fresh token -/
-def mkEvs : List String → Nat → List Ev
-  | [], _ => []
-  | l :: r, k =>
-    if l = "d" ∨ l = "o" then { opt := l, arg := some k } :: mkEvs r (k + 1)
-    else { opt := l, arg := none } :: mkEvs r k
+/-- the flags are honoured: an unknown flag (or missing option argument) exits 10 and stray operands
+exit 1, both before any step; `-c` runs no job and no delivery; `-r` runs no build step; a successful
+invocation with neither flag ran every build tool before the job. -/
+def FlagsHonoured (b : Backend) (i : Inv) (out : Outcome) : Prop :=
+  let f := flagsOf i.evs {}
+  (f.bad = true → out.code = 10 ∧ out.log = []) ∧
+  (f.bad = false → i.nrest ≠ 0 → out.code = 1 ∧ out.log = []) ∧
+  (f.bad = false → i.nrest = 0 →
+    (f.c = true → ∀ e ∈ out.log, isRunStep b e.1.argv = false) ∧
+    (f.r = true → ∀ e ∈ out.log, isBuild b e.1.argv = false) ∧
+    (out.code = 0 → f.c = false → f.r = false →
+      ∀ t ∈ buildTools b, ∃ e ∈ (viewOf out.log).take (findIdxV (isJob b) (viewOf out.log)), nameIs e.1 t = true))
 
-def mkInv (letters : List String) (nrest : Nat) : Inv :=
-  let evs := mkEvs letters 0
-  { evs := evs, nargs := evs.length + (evs.filter (fun e => e.arg.isSome)).length + nrest, nrest := nrest }
+/-- exit 0 of an invocation that runs ⇒ exactly one job step ran, the delivery is the last step and comes
+after it, and the destination (`<-o path>/ANALYSIS.root` if the `-o` path is a directory, else the `-o`
+path; default /results) holds the output of THIS invocation's job (`jobOut inv j …`) whose input was
+exactly the `-d` argument (one line) or, without `-d`, the file list next to the script (else the one in
+the start directory). -/
+def Delivered (b : Backend) (i : Inv) (inv : Nat) (fs : FS) (out : Outcome) : Prop :=
+  let f := flagsOf i.evs {}
+  f.bad = false → i.nrest = 0 → out.code = 0 → f.c = false →
+    deliveryLogV b (viewOf out.log) = true ∧
+    (destNode (out.fs (outPath f)) (out.fs ((outPath f).child "ANALYSIS.root"))).norm =
+      .file (expectedOut b inv optTok (listInputOf fs) f (findIdxV (isJob b) (viewOf out.log)))
 
-def flagSets : List (List String) := sublists ["c", "r", "d", "o"]
+/-- a non-zero exit (and a compile-only invocation) leaves nothing new at the destination -/
+def NoFreshOutput (i : Inv) (fs : FS) (out : Outcome) : Prop :=
+  let f := flagsOf i.evs {}
+  (out.code ≠ 0 ∨ f.c = true) →
+    out.fs (outPath f) = fs (outPath f) ∧
+    out.fs ((outPath f).child "ANALYSIS.root") = fs ((outPath f).child "ANALYSIS.root")
 
-/-- every subset of {-c, -r, -d x, -o y} in every order, plus some repetitions -/
-def validInvs : List Inv :=
-  ((flagSets.flatMap perms) ++ [["d", "d"], ["o", "o"], ["c", "c"], ["r", "c", "r"], ["d", "o", "d"], ["o", "d", "o", "c"]]).map (mkInv · 0)
+/-- `SpecOK` of a model run, spelled out -/
+theorem specOK_mkObs (b : Backend) (i : Inv) (inv : Nat) (live : Bool) (code : Nat) (log : List (Cmd × Nat)) (fs fs' : FS) :
+    SpecOK (mkObs b i inv live code log fs fs') =
+      (let f := flagsOf i.evs {}
+       let p := outPath f
+       let unchanged := decide (fs' p = fs p) && decide (fs' (p.child "ANALYSIS.root") = fs (p.child "ANALYSIS.root"))
+       if f.bad then decide (code = 10) && (viewOf log).isEmpty && unchanged
+       else if i.nrest ≠ 0 then decide (code = 1) && (viewOf log).isEmpty && unchanged
+       else SpecCore b f optTok inv live (code == 0) (viewOf log) (fs p) (fs' p)
+              (fs (p.child "ANALYSIS.root")) (fs' (p.child "ANALYSIS.root")) (listInputOf fs)) := rfl
 
-/-- an unknown flag (or a missing option argument) after any set of valid flags -/
-def badInvs : List Inv := flagSets.map (fun l => mkInv (l ++ ["?"]) 0) ++ [mkInv ["?", "c"] 0, mkInv ["c", "?", "r"] 1]
+theorem viewOf_isEmpty {log : List (Cmd × Nat)} (h : (viewOf log).isEmpty = true) : log = [] := by
+  cases log with
+  | nil => rfl
+  | cons a r => simp [viewOf] at h
 
-/-- stray operands after any set of valid flags -/
-def strayInvs : List Inv := flagSets.map (mkInv · 1) ++ [mkInv [] 2, mkInv ["r"] 3]
+theorem viewOf_all {log : List (Cmd × Nat)} {p : List Val → Bool} (h : (viewOf log).all (fun e => p e.1) = true) :
+    ∀ e ∈ log, p e.1.argv = true := by
+  intro e he
+  simp only [viewOf, List.all_map, List.all_eq_true] at h
+  exact h e he
 
-def allInvs : List Inv := validInvs ++ badInvs ++ strayInvs
+theorem flags_of_spec (b : Backend) (script : List Sh) (i : Inv) (o : Oracle) (inv : Nat) (fs : FS) (live : Bool)
+    (h : SpecOK (obsOf b script i o inv fs live) = true) : FlagsHonoured b i (run script i o inv fs) := by
+  unfold obsOf at h
+  simp only [specOK_mkObs] at h
+  unfold FlagsHonoured
+  simp only
+  refine ⟨?_, ?_, ?_⟩
+  · intro hb
+    simp only [hb, if_true, Bool.and_eq_true, decide_eq_true_eq] at h
+    exact ⟨h.1.1, viewOf_isEmpty h.1.2⟩
+  · intro hb hn
+    simp only [hb, Bool.false_eq_true, if_false] at h
+    rw [if_pos hn] at h
+    simp only [Bool.and_eq_true, decide_eq_true_eq] at h
+    exact ⟨h.1.1, viewOf_isEmpty h.1.2⟩
+  · intro hb hn
+    simp only [hb, Bool.false_eq_true, if_false] at h
+    rw [if_neg (by simp [hn])] at h
+    unfold SpecCore at h
+    simp only [Bool.and_eq_true] at h
+    obtain ⟨⟨⟨⟨⟨_, h2⟩, h3⟩, _⟩, _⟩, _⟩ := h
+    unfold specPhasesV at h2
+    simp only [Bool.and_eq_true, Bool.or_eq_true, Bool.not_eq_true'] at h2
+    refine ⟨?_, ?_, ?_⟩
+    · intro hc
+      rcases h2.1 with h' | h'
+      · rw [hc] at h'; exact absurd h' (by decide)
+      · intro e he
+        have := viewOf_all (p := fun a => !isRunStep b a) h' e he
+        simpa using this
+    · intro hr
+      rcases h2.2 with h' | h'
+      · rw [hr] at h'; exact absurd h' (by decide)
+      · intro e he
+        have := viewOf_all (p := fun a => !isBuild b a) h' e he
+        simpa using this
+    · intro hc0 hc hr
+      unfold specBuildThenRunV at h3
+      simp only [hc0, hc, hr, beq_self_eq_true, Bool.not_false, Bool.and_self, Bool.not_true, Bool.false_or,
+        List.all_eq_true, List.any_eq_true] at h3
+      intro t ht
+      exact h3 t ht
 
-/-! ## Per script: the abstract exploration succeeds (kernel computation on the generated term) -/
+theorem delivered_of_spec (b : Backend) (script : List Sh) (i : Inv) (o : Oracle) (inv : Nat) (fs : FS) (live : Bool)
+    (h : SpecOK (obsOf b script i o inv fs live) = true) : Delivered b i inv fs (run script i o inv fs) := by
+  unfold obsOf at h
+  simp only [specOK_mkObs] at h
+  unfold Delivered
+  simp only
+  intro hb hn hc0 hc
+  simp only [hb, Bool.false_eq_true, if_false] at h
+  rw [if_neg (by simp [hn])] at h
+  unfold SpecCore at h
+  simp only [Bool.and_eq_true] at h
+  obtain ⟨⟨⟨_, h4⟩, _⟩, _⟩ := h
+  simp only [hc0, hc, beq_self_eq_true, Bool.not_false, Bool.and_self, Bool.not_true, Bool.false_or, Bool.and_eq_true,
+    decide_eq_true_eq] at h4
+  exact h4
 
-def checkAll (b : Backend) (script : List Sh) (invs : List Inv) : Bool :=
-  invs.all (fun i => absCheck false (leafP b i false) (scriptTree script i) {})
+theorem noFresh_of_spec (b : Backend) (script : List Sh) (i : Inv) (o : Oracle) (inv : Nat) (fs : FS) (live : Bool)
+    (h : SpecOK (obsOf b script i o inv fs live) = true) : NoFreshOutput i fs (run script i o inv fs) := by
+  unfold obsOf at h
+  simp only [specOK_mkObs] at h
+  unfold NoFreshOutput
+  simp only
+  intro hfail
+  by_cases hb : (flagsOf i.evs {}).bad = true
+  · simp only [hb, if_true, Bool.and_eq_true, decide_eq_true_eq] at h
+    exact h.2
+  · simp only [hb, Bool.false_eq_true, if_false] at h
+    by_cases hn : i.nrest ≠ 0
+    · rw [if_pos hn] at h
+      simp only [Bool.and_eq_true, decide_eq_true_eq] at h
+      exact h.2
+    · rw [if_neg hn] at h
+      unfold SpecCore at h
+      simp only [Bool.and_eq_true] at h
+      obtain ⟨⟨_, h5⟩, _⟩ := h
+      simp only [Bool.or_eq_true, Bool.not_eq_true', Bool.and_eq_true, decide_eq_true_eq] at h5
+      rcases h5 with h5 | h5
+      · exfalso
+        simp only [Bool.or_eq_false_iff, Bool.not_eq_false'] at h5
+        rcases hfail with hf | hf
+        · exact hf (by simpa using h5.1)
+        · rw [hf] at h5; exact absurd h5.2 (by decide)
+      · exact h5
 
-set_option maxRecDepth 1000000 in
-theorem check_atlasR21 : checkAll .atlas Gen.atlasR21 allInvs = true := by decide +kernel
+/-! ## From the kernel computations to statements about every run -/
+
+theorem absCheck_mono {α : Type} (allOk : Bool) (P Q : Abs → α → Bool) (h : ∀ ab a, P ab a = true → Q ab a = true) :
+    ∀ (t : Tree α) (ab : Abs), absCheck allOk P t ab = true → absCheck allOk Q t ab = true := by
+  intro t
+  induction t with
+  | ret a => intro ab hc; simp only [absCheck] at hc ⊢; exact h _ _ hc
+  | cmd c pre effs ok fail ihok ihfail =>
+    intro ab hc
+    simp only [absCheck] at hc ⊢
+    cases hres : absPres ab pre with
+    | fails => rw [hres] at hc; exact ihfail () _ hc
+    | holds =>
+      rw [hres] at hc
+      simp only [Bool.and_eq_true, Bool.or_eq_true, List.all_eq_true] at hc ⊢
+      refine ⟨fun ab' hm => ihok () _ (hc.1 ab' hm), ?_⟩
+      rcases hc.2 with h' | h'
+      · left; exact h'
+      · right; exact ihfail () _ h'
+    | unknown ab1 =>
+      rw [hres] at hc
+      simp only [Bool.and_eq_true, List.all_eq_true] at hc ⊢
+      exact ⟨fun ab' hm => ihok () _ (hc.1 ab' hm), ihfail () _ hc.2⟩
+  | ask q y n ihy ihn =>
+    intro ab hc
+    simp only [absCheck] at hc ⊢
+    cases ha : ab.answer q with
+    | some bb =>
+      rw [ha] at hc
+      cases bb with
+      | true => exact ihy () _ hc
+      | false => exact ihn () _ hc
+    | none =>
+      rw [ha] at hc
+      simp only [Bool.and_eq_true] at hc ⊢
+      exact ⟨ihy () _ hc.1, ihn () _ hc.2⟩
+  | eff e next ih =>
+    intro ab hc
+    simp only [absCheck, List.all_eq_true] at hc ⊢
+    exact fun ab' hm => ih () _ (hc ab' hm)
+
+/-- what holds at the leaf a concrete run ends in, given a successful exploration -/
+theorem leaf_of_check {P : Abs → Code → Bool} (script : List Sh) (i : Inv) (allOk : Bool) (facts : List (SPath × Fact))
+    (hc : absCheck allOk P (scriptTree script i) { facts := facts } = true)
+    (o : Oracle) (inv : Nat) (fs : FS) (hwf : WF fs) (hall : allOk = true → ∀ k c, o.status k c = 0)
+    (hf : FactsHold fs facts) :
+    ∃ ab', Rel o inv fs ab' (interp o inv (scriptTree script i) { fs := fs, log := [] }).2 ∧
+      P ab' (interp o inv (scriptTree script i) { fs := fs, log := [] }).1 = true :=
+  absCheck_sound o inv fs hwf allOk hall P (scriptTree script i) { facts := facts } { fs := fs, log := [] }
+    (rel_init o inv fs facts hf) hc
+
+/-- the build directory a run-only invocation needs -/
+def BuildPresent (b : Backend) (fs : FS) : Prop := fs (buildDir b) = .dir
+
+theorem kind_dir_of_know {o inv fs ab d} (hr : Rel o inv fs ab d) (hwf : WF fs) (p : SPath)
+    (h : ab.know p .dir = some true) : d.fs p = .dir := by
+  have := know_sound hr hwf p .dir true h
+  rw [← node_isDir] at this
+  simpa using this
+
+section generic
+variable (b : Backend) (script : List Sh)
+
+/-- every clause of the Spec, for every oracle and every tree-shaped file system -/
+theorem spec_of_checkAll (hc : checkAll b script allInvs = true) (i : Inv) (hi : i ∈ allInvs)
+    (o : Oracle) (inv : Nat) (fs : FS) (hwf : WF fs) : SpecOK (obsOf b script i o inv fs false) = true := by
+  have h1 := List.all_eq_true.1 hc i hi
+  have h2 := absCheck_mono false (leafAll b i) (leafP b i false)
+    (fun ab a h => by simp only [leafAll, Bool.and_eq_true] at h; exact h.1.1) _ _ h1
+  exact spec_of_check b script i false false [] h2 o inv fs hwf (by intro h; cases h) (by intro pf h; cases h)
+
+theorem keeps_of_checkAll (hc : checkAll b script allInvs = true) (i : Inv) (hi : i ∈ rerunInvs)
+    (o : Oracle) (inv : Nat) (fs : FS) (hwf : WF fs) (hb : BuildPresent b fs) :
+    BuildPresent b (run script i o inv fs).fs := by
+  have hmem : ∀ i ∈ rerunInvs, i ∈ allInvs ∧ (flagsOf i.evs {}).bad = false ∧ i.nrest = 0 ∧ (flagsOf i.evs {}).r = true := by
+    decide
+  obtain ⟨hia, hbad, hn, hr⟩ := hmem i hi
+  have h1 := List.all_eq_true.1 hc i hia
+  obtain ⟨ab', hrel, hp⟩ := leaf_of_check script i false [] h1 o inv fs hwf (by intro h; cases h) (by intro pf h; cases h)
+  simp only [leafAll, hbad, hn, hr, Bool.and_eq_true, Bool.or_eq_true, Bool.false_or, bne_self_eq_false, Bool.not_true,
+    decide_eq_true_eq, Option.isNone_iff_eq_none] at hp
+  unfold BuildPresent run
+  simp only
+  rcases hp.2 with hu | hk
+  · rw [hrel.fsOk]
+    simp only [evalLookup, hu]
+    exact hb
+  · exact kind_dir_of_know hrel hwf _ hk
+
+theorem establishes_of_checkAll (hc : checkAll b script allInvs = true) (i : Inv) (hi : i ∈ buildInvs)
+    (o : Oracle) (inv : Nat) (fs : FS) (hwf : WF fs) (h0 : (run script i o inv fs).code = 0) :
+    BuildPresent b (run script i o inv fs).fs := by
+  have hmem : ∀ i ∈ buildInvs, i ∈ allInvs ∧ (flagsOf i.evs {}).bad = false ∧ i.nrest = 0 ∧ (flagsOf i.evs {}).r = false := by
+    decide
+  obtain ⟨hia, hbad, hn, hr⟩ := hmem i hi
+  have h1 := List.all_eq_true.1 hc i hia
+  obtain ⟨ab', hrel, hp⟩ := leaf_of_check script i false [] h1 o inv fs hwf (by intro h; cases h) (by intro pf h; cases h)
+  simp only [leafAll, hbad, hn, hr, Bool.and_eq_true, Bool.or_eq_true, Bool.false_or, bne_self_eq_false] at hp
+  unfold run at h0
+  simp only at h0
+  unfold BuildPresent run
+  simp only
+  cases hok : leafOk ab' (interp o inv (scriptTree script i) { fs := fs, log := [] }).1 with
+  | none =>
+    -- `leafP` already fails when the exit code is not understood
+    have := hp.1.1
+    simp only [leafP, hbad, hn, hok] at this
+    simp at this
+  | some ok =>
+    have hcode := leafOk_sound hrel _ ok hok
+    rw [h0] at hcode
+    simp only [beq_self_eq_true] at hcode
+    subst hcode
+    have := hp.1.2
+    rw [hok] at this
+    simp only [decide_eq_true_eq] at this
+    exact kind_dir_of_know hrel hwf _ this
+
+/-- no tool fails spontaneously and the environment is adequate ⇒ exit 0 (and all of the Spec) -/
+theorem live_of_checkLive (hc : checkLive b script canonInvs = true) (i : Inv) (hi : i ∈ canonInvs)
+    (o : Oracle) (hall : ∀ k c, o.status k c = 0) (inv : Nat) (fs : FS) (hwf : WF fs)
+    (hf : FactsHold fs (adequateFacts b (flagsOf i.evs {}))) :
+    (run script i o inv fs).code = 0 ∧ SpecOK (obsOf b script i o inv fs true) = true := by
+  have h1 := List.all_eq_true.1 hc i hi
+  have hs := spec_of_check b script i true true _ h1 o inv fs hwf (fun _ => hall) hf
+  refine ⟨?_, hs⟩
+  have hmem : ∀ i ∈ canonInvs, (flagsOf i.evs {}).bad = false ∧ i.nrest = 0 := by decide
+  obtain ⟨hbad, hn⟩ := hmem i hi
+  unfold obsOf at hs
+  simp only [specOK_mkObs, hbad, hn, Bool.false_eq_true, if_false, ne_eq, not_true_eq_false] at hs
+  unfold SpecCore at hs
+  simp only [Bool.and_eq_true, Bool.not_true, Bool.false_or] at hs
+  simpa using hs.2
+
+end generic
+
+/-! ## Histories: compile once, run many times -/
+
+/-- one run-only invocation of a history: its command line, its oracles and the file system it starts from -/
+structure RStep where
+  i : Inv
+  o : Oracle
+  fs : FS
+
+/-- A history of run-only invocations.  Each one starts from a tree-shaped file system that agrees, on the
+script's own working area (everything below the start directory), with what the previous invocation
+left behind; everything else — destinations, inputs, what this invocation's option arguments denote —
+is arbitrary, so every invocation has its own `-d` input and `-o` destination. -/
+def Chain (script : List Sh) : FS → Nat → List RStep → Prop
+  | _, _, [] => True
+  | prev, n, s :: r =>
+    s.i ∈ rerunInvs ∧ WF s.fs ∧ (∀ p : SPath, p.base = .cwd0 → s.fs p = prev p) ∧
+      Chain script (run script s.i s.o n s.fs).fs (n + 1) r
+
+/-- every invocation of the history: no build step; exit 0 ⇒ delivered (own job, own input, own
+destination); non-zero ⇒ nothing new at its destination; and it does exit 0 whenever none of its tools
+fails and its run-time environment is adequate — the build made once is still usable. -/
+def ChainGood (b : Backend) (script : List Sh) : Nat → List RStep → Prop
+  | _, [] => True
+  | n, s :: r =>
+    ((∀ e ∈ (run script s.i s.o n s.fs).log, isBuild b e.1.argv = false) ∧
+      Delivered b s.i n s.fs (run script s.i s.o n s.fs) ∧
+      NoFreshOutput s.i s.fs (run script s.i s.o n s.fs) ∧
+      ((∀ k c, s.o.status k c = 0) → FactsHold s.fs (envFacts b ++ runFacts b (flagsOf s.i.evs {})) →
+        (run script s.i s.o n s.fs).code = 0)) ∧
+    ChainGood b script (n + 1) r
+
+theorem rerun_generic (b : Backend) (script : List Sh) (hc : checkAll b script allInvs = true)
+    (hl : checkLive b script canonInvs = true) :
+    ∀ (steps : List RStep) (prev : FS) (n : Nat), BuildPresent b prev → Chain script prev n steps →
+      ChainGood b script n steps := by
+  intro steps
+  induction steps with
+  | nil => intro _ _ _ _; trivial
+  | cons s r ih =>
+    intro prev n hb hch
+    obtain ⟨hi, hwf, hag, hrest⟩ := hch
+    have hmem : ∀ i ∈ rerunInvs, i ∈ allInvs ∧ i ∈ canonInvs ∧ (flagsOf i.evs {}).bad = false ∧ i.nrest = 0 ∧
+        (flagsOf i.evs {}).r = true ∧ (flagsOf i.evs {}).c = false := by decide
+    obtain ⟨hia, hic, hbad, hn, hr, hcf⟩ := hmem s.i hi
+    have hb' : BuildPresent b s.fs := by
+      unfold BuildPresent at hb ⊢
+      rw [hag (buildDir b) (by cases b <;> rfl)]
+      exact hb
+    have hspec := spec_of_checkAll b script hc s.i hia s.o n s.fs hwf
+    have hflags := flags_of_spec b script s.i s.o n s.fs false hspec
+    refine ⟨⟨?_, delivered_of_spec b script s.i s.o n s.fs false hspec, noFresh_of_spec b script s.i s.o n s.fs false hspec, ?_⟩, ?_⟩
+    · exact (hflags.2.2 hbad hn).2.1 hr
+    · intro hall hf
+      apply (live_of_checkLive b script hl s.i hic s.o hall n s.fs hwf ?_).1
+      intro pf hpf
+      simp only [adequateFacts, hr, hcf, if_true, Bool.false_eq_true, if_false, List.mem_append, List.mem_singleton] at hpf
+      rcases hpf with (hpf | hpf) | hpf
+      · exact hf pf (by simp [hpf])
+      · subst hpf
+        rw [← node_isDir]
+        have hb'' : s.fs (buildDir b) = Node.dir := hb'
+        simp [hb'']
+      · exact hf pf (by simp [hpf])
+    · exact ih _ _ (keeps_of_checkAll b script hc s.i hi s.o n s.fs hwf hb') hrest
+
+/-! ## The property, per script -/
+
+section atlasR21
+
+/-- **C16.spec_atlasR21** — the whole Spec (`SpecOK`: flags, fail-stop, input, delivery, no fresh output on
+failure) for the ATLAS r21 script, for every command line of `allInvs`, every oracle (every set of failing
+steps, every status), every invocation number and every tree-shaped initial file system. -/
+theorem spec_atlasR21 (i : Inv) (hi : i ∈ allInvs) (o : Oracle) (inv : Nat) (fs : FS) (hwf : WF fs) :
+    SpecOK (obsOf .atlas Gen.atlasR21 i o inv fs false) = true :=
+  spec_of_checkAll .atlas Gen.atlasR21 check_atlasR21 i hi o inv fs hwf
+
+/-- **C16.failstop_atlasR21** — for EVERY invocation (any getopts event list, any operands): exit 0 ⇒ every logged step succeeded. -/
+theorem failstop_atlasR21 (i : Inv) (o : Oracle) (inv : Nat) (fs : FS) :
+    (run Gen.atlasR21 i o inv fs).code = 0 → ∀ e ∈ (run Gen.atlasR21 i o inv fs).log, e.2 = 0 :=
+  failstop Gen.atlasR21 strict_atlasR21 i o inv fs
+
+/-- **C16.flags_atlasR21** -/
+theorem flags_atlasR21 (i : Inv) (hi : i ∈ allInvs) (o : Oracle) (inv : Nat) (fs : FS) (hwf : WF fs) :
+    FlagsHonoured .atlas i (run Gen.atlasR21 i o inv fs) :=
+  flags_of_spec _ _ _ _ _ _ _ (spec_atlasR21 i hi o inv fs hwf)
+
+/-- **C16.delivery_atlasR21** (includes C16.input: the job's input is exactly the `-d` argument) -/
+theorem delivery_atlasR21 (i : Inv) (hi : i ∈ allInvs) (o : Oracle) (inv : Nat) (fs : FS) (hwf : WF fs) :
+    Delivered .atlas i inv fs (run Gen.atlasR21 i o inv fs) :=
+  delivered_of_spec _ _ _ _ _ _ _ (spec_atlasR21 i hi o inv fs hwf)
+
+/-- **C16.no_fresh_output_atlasR21** -/
+theorem no_fresh_output_atlasR21 (i : Inv) (hi : i ∈ allInvs) (o : Oracle) (inv : Nat) (fs : FS) (hwf : WF fs) :
+    NoFreshOutput i fs (run Gen.atlasR21 i o inv fs) :=
+  noFresh_of_spec _ _ _ _ _ _ _ (spec_atlasR21 i hi o inv fs hwf)
+
+/-- **C16.live_atlasR21** — with no flags it does build and run, `-c` does build, `-r` does run: when no tool
+fails spontaneously and the environment is adequate (`adequateFacts`), the script exits 0. -/
+theorem live_atlasR21 (i : Inv) (hi : i ∈ canonInvs) (o : Oracle) (hall : ∀ k c, o.status k c = 0) (inv : Nat) (fs : FS)
+    (hwf : WF fs) (hf : FactsHold fs (adequateFacts .atlas (flagsOf i.evs {}))) :
+    (run Gen.atlasR21 i o inv fs).code = 0 ∧ SpecOK (obsOf .atlas Gen.atlasR21 i o inv fs true) = true :=
+  live_of_checkLive .atlas Gen.atlasR21 checkLive_atlasR21 i hi o hall inv fs hwf hf
+
+/-- **C16.rerun_atlasR21** — after ONE successful building invocation, ANY number of run-only invocations
+(induction over the history, invariant: build directory present): none has a build step, each delivers
+its own job's output on its own input to its own destination when it exits 0, leaves nothing new
+otherwise, and does exit 0 whenever its tools succeed. -/
+theorem rerun_atlasR21 (ic : Inv) (hic : ic ∈ buildInvs) (oc : Oracle) (n : Nat) (fs0 : FS) (hwf : WF fs0)
+    (h0 : (run Gen.atlasR21 ic oc n fs0).code = 0) (steps : List RStep)
+    (hch : Chain Gen.atlasR21 (run Gen.atlasR21 ic oc n fs0).fs (n + 1) steps) :
+    ChainGood .atlas Gen.atlasR21 (n + 1) steps :=
+  rerun_generic .atlas Gen.atlasR21 check_atlasR21 checkLive_atlasR21 steps _ _
+    (establishes_of_checkAll .atlas Gen.atlasR21 check_atlasR21 ic hic oc n fs0 hwf h0) hch
+
+end atlasR21
+
+section cmsR5
+
+/-- **C16.spec_cmsR5** — the whole Spec (`SpecOK`: flags, fail-stop, input, delivery, no fresh output on
+failure) for the CMS r5 (AOD) script, for every command line of `allInvs`, every oracle (every set of failing
+steps, every status), every invocation number and every tree-shaped initial file system. -/
+theorem spec_cmsR5 (i : Inv) (hi : i ∈ allInvs) (o : Oracle) (inv : Nat) (fs : FS) (hwf : WF fs) :
+    SpecOK (obsOf .cms Gen.cmsR5 i o inv fs false) = true :=
+  spec_of_checkAll .cms Gen.cmsR5 check_cmsR5 i hi o inv fs hwf
+
+/-- **C16.failstop_cmsR5** — for EVERY invocation (any getopts event list, any operands): exit 0 ⇒ every logged step succeeded. -/
+theorem failstop_cmsR5 (i : Inv) (o : Oracle) (inv : Nat) (fs : FS) :
+    (run Gen.cmsR5 i o inv fs).code = 0 → ∀ e ∈ (run Gen.cmsR5 i o inv fs).log, e.2 = 0 :=
+  failstop Gen.cmsR5 strict_cmsR5 i o inv fs
+
+/-- **C16.flags_cmsR5** -/
+theorem flags_cmsR5 (i : Inv) (hi : i ∈ allInvs) (o : Oracle) (inv : Nat) (fs : FS) (hwf : WF fs) :
+    FlagsHonoured .cms i (run Gen.cmsR5 i o inv fs) :=
+  flags_of_spec _ _ _ _ _ _ _ (spec_cmsR5 i hi o inv fs hwf)
+
+/-- **C16.delivery_cmsR5** (includes C16.input: the job's input is exactly the `-d` argument) -/
+theorem delivery_cmsR5 (i : Inv) (hi : i ∈ allInvs) (o : Oracle) (inv : Nat) (fs : FS) (hwf : WF fs) :
+    Delivered .cms i inv fs (run Gen.cmsR5 i o inv fs) :=
+  delivered_of_spec _ _ _ _ _ _ _ (spec_cmsR5 i hi o inv fs hwf)
+
+/-- **C16.no_fresh_output_cmsR5** -/
+theorem no_fresh_output_cmsR5 (i : Inv) (hi : i ∈ allInvs) (o : Oracle) (inv : Nat) (fs : FS) (hwf : WF fs) :
+    NoFreshOutput i fs (run Gen.cmsR5 i o inv fs) :=
+  noFresh_of_spec _ _ _ _ _ _ _ (spec_cmsR5 i hi o inv fs hwf)
+
+/-- **C16.live_cmsR5** — with no flags it does build and run, `-c` does build, `-r` does run: when no tool
+fails spontaneously and the environment is adequate (`adequateFacts`), the script exits 0. -/
+theorem live_cmsR5 (i : Inv) (hi : i ∈ canonInvs) (o : Oracle) (hall : ∀ k c, o.status k c = 0) (inv : Nat) (fs : FS)
+    (hwf : WF fs) (hf : FactsHold fs (adequateFacts .cms (flagsOf i.evs {}))) :
+    (run Gen.cmsR5 i o inv fs).code = 0 ∧ SpecOK (obsOf .cms Gen.cmsR5 i o inv fs true) = true :=
+  live_of_checkLive .cms Gen.cmsR5 checkLive_cmsR5 i hi o hall inv fs hwf hf
+
+/-- **C16.rerun_cmsR5** — after ONE successful building invocation, ANY number of run-only invocations
+(induction over the history, invariant: build directory present): none has a build step, each delivers
+its own job's output on its own input to its own destination when it exits 0, leaves nothing new
+otherwise, and does exit 0 whenever its tools succeed. -/
+theorem rerun_cmsR5 (ic : Inv) (hic : ic ∈ buildInvs) (oc : Oracle) (n : Nat) (fs0 : FS) (hwf : WF fs0)
+    (h0 : (run Gen.cmsR5 ic oc n fs0).code = 0) (steps : List RStep)
+    (hch : Chain Gen.cmsR5 (run Gen.cmsR5 ic oc n fs0).fs (n + 1) steps) :
+    ChainGood .cms Gen.cmsR5 (n + 1) steps :=
+  rerun_generic .cms Gen.cmsR5 check_cmsR5 checkLive_cmsR5 steps _ _
+    (establishes_of_checkAll .cms Gen.cmsR5 check_cmsR5 ic hic oc n fs0 hwf h0) hch
+
+end cmsR5
+
+section cmsR7
+
+/-- **C16.spec_cmsR7** — the whole Spec (`SpecOK`: flags, fail-stop, input, delivery, no fresh output on
+failure) for the CMS r7 (miniAOD) script, for every command line of `allInvs`, every oracle (every set of failing
+steps, every status), every invocation number and every tree-shaped initial file system. -/
+theorem spec_cmsR7 (i : Inv) (hi : i ∈ allInvs) (o : Oracle) (inv : Nat) (fs : FS) (hwf : WF fs) :
+    SpecOK (obsOf .cms Gen.cmsR7 i o inv fs false) = true :=
+  spec_of_checkAll .cms Gen.cmsR7 check_cmsR7 i hi o inv fs hwf
+
+/-- **C16.failstop_cmsR7** — for EVERY invocation (any getopts event list, any operands): exit 0 ⇒ every logged step succeeded. -/
+theorem failstop_cmsR7 (i : Inv) (o : Oracle) (inv : Nat) (fs : FS) :
+    (run Gen.cmsR7 i o inv fs).code = 0 → ∀ e ∈ (run Gen.cmsR7 i o inv fs).log, e.2 = 0 :=
+  failstop Gen.cmsR7 strict_cmsR7 i o inv fs
+
+/-- **C16.flags_cmsR7** -/
+theorem flags_cmsR7 (i : Inv) (hi : i ∈ allInvs) (o : Oracle) (inv : Nat) (fs : FS) (hwf : WF fs) :
+    FlagsHonoured .cms i (run Gen.cmsR7 i o inv fs) :=
+  flags_of_spec _ _ _ _ _ _ _ (spec_cmsR7 i hi o inv fs hwf)
+
+/-- **C16.delivery_cmsR7** (includes C16.input: the job's input is exactly the `-d` argument) -/
+theorem delivery_cmsR7 (i : Inv) (hi : i ∈ allInvs) (o : Oracle) (inv : Nat) (fs : FS) (hwf : WF fs) :
+    Delivered .cms i inv fs (run Gen.cmsR7 i o inv fs) :=
+  delivered_of_spec _ _ _ _ _ _ _ (spec_cmsR7 i hi o inv fs hwf)
+
+/-- **C16.no_fresh_output_cmsR7** -/
+theorem no_fresh_output_cmsR7 (i : Inv) (hi : i ∈ allInvs) (o : Oracle) (inv : Nat) (fs : FS) (hwf : WF fs) :
+    NoFreshOutput i fs (run Gen.cmsR7 i o inv fs) :=
+  noFresh_of_spec _ _ _ _ _ _ _ (spec_cmsR7 i hi o inv fs hwf)
+
+/-- **C16.live_cmsR7** — with no flags it does build and run, `-c` does build, `-r` does run: when no tool
+fails spontaneously and the environment is adequate (`adequateFacts`), the script exits 0. -/
+theorem live_cmsR7 (i : Inv) (hi : i ∈ canonInvs) (o : Oracle) (hall : ∀ k c, o.status k c = 0) (inv : Nat) (fs : FS)
+    (hwf : WF fs) (hf : FactsHold fs (adequateFacts .cms (flagsOf i.evs {}))) :
+    (run Gen.cmsR7 i o inv fs).code = 0 ∧ SpecOK (obsOf .cms Gen.cmsR7 i o inv fs true) = true :=
+  live_of_checkLive .cms Gen.cmsR7 checkLive_cmsR7 i hi o hall inv fs hwf hf
+
+/-- **C16.rerun_cmsR7** — after ONE successful building invocation, ANY number of run-only invocations
+(induction over the history, invariant: build directory present): none has a build step, each delivers
+its own job's output on its own input to its own destination when it exits 0, leaves nothing new
+otherwise, and does exit 0 whenever its tools succeed. -/
+theorem rerun_cmsR7 (ic : Inv) (hic : ic ∈ buildInvs) (oc : Oracle) (n : Nat) (fs0 : FS) (hwf : WF fs0)
+    (h0 : (run Gen.cmsR7 ic oc n fs0).code = 0) (steps : List RStep)
+    (hch : Chain Gen.cmsR7 (run Gen.cmsR7 ic oc n fs0).fs (n + 1) steps) :
+    ChainGood .cms Gen.cmsR7 (n + 1) steps :=
+  rerun_generic .cms Gen.cmsR7 check_cmsR7 checkLive_cmsR7 steps _ _
+    (establishes_of_checkAll .cms Gen.cmsR7 check_cmsR7 ic hic oc n fs0 hwf h0) hch
+
+end cmsR7
+
+/-! ## The hypotheses are satisfiable (non-vacuity) -/
+
+example : mkInv ["r", "d", "o"] 0 ∈ allInvs ∧ mkInv [] 0 ∈ canonInvs ∧ mkInv ["c"] 0 ∈ buildInvs ∧
+    mkInv ["r", "d", "o"] 0 ∈ rerunInvs := by decide
+
+theorem isUnder_trans {p q r : SPath} (h1 : q.isUnder p = true) (h2 : r.isUnder q = true) : r.isUnder p = true := by
+  simp only [SPath.isUnder, Bool.and_eq_true, decide_eq_true_eq, List.isPrefixOf_iff_prefix] at *
+  exact ⟨h2.1.trans h1.1, h1.2.trans h2.2⟩
+
+/-- a fresh container: nothing below the build root, everything else a file -/
+def freshFS (b : Backend) : FS := ⟨fun p => if p.isUnder (buildRoot b) then .absent else .file .missing⟩
+
+theorem freshFS_wf (b : Backend) : WF (freshFS b) := by
+  intro p q hqp hp
+  simp only [freshFS] at hp ⊢
+  by_cases h : p.isUnder (buildRoot b) = true
+  · simp [isUnder_trans h hqp]
+  · simp [h] at hp
+
+
+instance (fs : FS) (facts : List (SPath × Fact)) : Decidable (FactsHold fs facts) :=
+  inferInstanceAs (Decidable (∀ pf ∈ facts, pf.2.holdsK (fs pf.1).kind = true))
+
+/-- the liveness hypotheses hold of a fresh container, for both backends and e.g. no flags, `-c`, `-d x -o y` -/
+example : ∀ b ∈ [Backend.atlas, Backend.cms], ∀ i ∈ [mkInv [] 0, mkInv ["c"] 0, mkInv ["d", "o"] 0],
+    FactsHold (freshFS b) (adequateFacts b (flagsOf i.evs {})) := by decide
+
+/-- … so the scripts do build and run there: e.g. the CMS r5 script, no flags, exits 0 after 10 steps,
+the last of which is the conversion into /results -/
+example : let out := run Gen.cmsR5 (mkInv [] 0) ⟨fun _ _ => 0, fun _ => true⟩ 0 (freshFS .cms)
+    out.code = 0 ∧ out.log.length = 10 ∧ (out.log.getLast?.map (fun e => e.1.argv.head?)) = some (some [.lit "root"]) := by
+  decide +kernel
+
+/-- … and a failing job step is reported: status 7 of step 8 (cmsRun) becomes the exit status, nothing reaches /results -/
+example : let out := run Gen.cmsR5 (mkInv [] 0) ⟨fun k _ => if k = 8 then 7 else 0, fun _ => true⟩ 0 (freshFS .cms)
+    out.code = 7 ∧ out.log.length = 9 ∧ out.fs ⟨.root, ["results"]⟩ = (freshFS .cms) ⟨.root, ["results"]⟩ := by
+  decide +kernel
+
+/-- histories as in `rerun_generic` exist -/
+example : ∃ (s : RStep) (prev : FS), BuildPresent .atlas prev ∧ Chain Gen.atlasR21 prev 1 [s] := by
+  refine ⟨⟨mkInv ["r", "d", "o"] 0, ⟨fun _ _ => 0, fun _ => false⟩, ⟨fun _ => .dir⟩⟩, ⟨fun _ => .dir⟩, rfl, ?_, ?_, ?_, trivial⟩
+  · decide
+  · intro p q _ h; simp at h
+  · intro p _; rfl
 
 end FaxVerif.C16
